@@ -9,22 +9,22 @@ TECH = "contract-based deductive verification: VCs generated from go/ast+go/type
 # property -> (level text, level_note, design_ref)
 CLAIMED = {
  "C01": ("Postconditions, proved for all inputs, of DDSketch.AddWithCount (a trackable value goes to the bin Index(|v|) of its side, or to the zero bucket when |v| is below the smallest indexable value; total weight +count) and of GetValueAtQuantile (the answer is +-Value(i) of a bin i of positive weight whose cumulative-weight interval contains the rank max(q*(W-1),0) on the side the rank falls in, first/last bin for q=0/1), over the Store interface contract (KeyAtRank = first index whose cumulative weight exceeds the rank) refined by the dense, collapsing and sparse stores, and over the IndexMapping interface contract (value within [LowerBound(i),LowerBound(i+1)], Value(i)=LowerBound(i)(1+alpha), bound ratio <= (1+alpha)/(1-alpha)).",
-         "The step from 'cumulative-weight interval contains the rank' to 'within alpha of the order statistic x_floor/ceil(q(n-1))' is a code-independent lemma (rank lemma + I6) stated in DESIGN 4 C01, not machine-checked. The mapping interface contract is assumed for the three mappings (constructors trusted, see C03). float64 arithmetic is real arithmetic (A-REAL): rounding of q*(n-1) and of Log/Exp at bin edges is not decided. SparseStore.KeyAtRank and the buffered-paginated store are not under contract (see not_applicable C04 / bounded stand-ins).",
+         "The step from 'cumulative-weight interval contains the rank' to 'within alpha of the order statistic x_floor/ceil(q(n-1))' is a code-independent lemma (rank lemma + I6) stated in DESIGN 4 C01, not machine-checked. The mapping interface contract is proved for the logarithmic mapping and rests on stated analytic assumptions for the interpolated ones (see C03). float64 arithmetic is real arithmetic (A-REAL): rounding of q*(n-1) and of Log/Exp at bin edges is not decided. SparseStore.KeyAtRank's functional postconditions are assumed (body verified for frame/safety); sketches built on the buffered-paginated store are not covered (the store is verified separately, see C04).",
          "DESIGN 4 C01"),
  "C02": ("MergeWith of DenseStore, SparseStore, both collapsing stores and DDSketch (plain and exact) is proved to add the argument's content index-wise (folded at the edge for collapsing receivers), to add zero weights and totals, to refuse differing mappings without any change, and to leave the argument's content unchanged; both the same-kind fast paths and the ForEach fallback (any argument kind satisfying the Store contract) are covered. Associativity/commutativity of index-wise addition then gives order- and partition-independence.",
-         "Merging into or from the buffered-paginated store is not yet under contract. Sketch and stores passed to a merge are assumed distinct with disjoint storage (disjoint(s, other), A-ENC). Equality of mappings is the abstract relation MEq decided by IndexMapping.Equals (see C19). A-REAL for weights.",
+         "The buffered-paginated store's MergeWith is proved on the store's own abstraction (C04) but sketches built on that store are not covered. Sketch and stores passed to a merge are assumed distinct with disjoint storage (disjoint(s, other), A-ENC). Equality of mappings is what IndexMapping.Equals decides (proved, see C19). A-REAL for weights.",
          "DESIGN 4 C02"),
  "C05": ("For both collapsing stores every function (adjust, extendRange, normalize, Add*, MergeWith same-kind and generic, Copy, Clear, decode) is proved for all inputs and all bin limits N>=1: len(bins) <= N and window width <= N are invariants, count = sum of bins (no weight lost), and each operation's content equals the previous content folded at the new collapsing edge plus the added weight on max/min(index, edge) (per-operation form of 'exact content folded at the edge'); every merge is panic-free, including a range wider than N into an empty or cleared store (genuine defect found and fixed, see known_findings.txt).",
          "The composition lemma Fold(Fold(G,e1)+d, e2) = Fold(G+d, e2) for e2 beyond e1, which turns the per-operation statements into the history statement, is code-independent and stated in DESIGN, not machine-checked; the fold placement of the generic (other-kind) merge path is proved only as conservation + invariant. Sketch-level accuracy for retained bins follows from C01's contract with the clamped store contract. A-REAL; getNewLength's float expression is evaluated in real arithmetic.",
          "DESIGN 4 C05"),
  "C06": ("Proved for all inputs: every Encode (stores, mappings, both sketch variants) only appends to the caller's buffer (existing bytes and length prefix kept) and leaves the abstract state of the sketch unchanged; every decoder consumes its input strictly from the front, preserves the store/sketch invariants and never removes weight; primitive codec round trips and framing are C18.",
-         "What the appended bytes denote (bins, zero weight, mapping) and the round trip decode(encode(s)) = s are NOT discharged deductively here (no stream-denotation contract yet); no bounded stand-in is built yet either. Paginated store not under contract.",
+         "What the appended bytes denote (bins, zero weight, mapping) and the round trip decode(encode(s)) = s are NOT discharged deductively here (no stream-denotation contract yet); no bounded stand-in is built yet either. Paginated store: native decoders and Encode under contract (C04), not the sketch built on it.",
          "DESIGN 4 C06"),
  "C07": ("Proved: the per-flag payload framing of the sketch decoder - the plain decoder consumes exactly the documented payload of each summary-statistics block (varfloat64 length for the total count, 8 bytes for sum/min/max) and rejects every other feature flag (genuine defect found and fixed: it skipped 8 bytes for the varfloat count); flag type/subflag dispatch; bin layouts other than the three documented ones are rejected by every store.",
-         "That encoders emit exactly the documented grammar, and that every grammatical stream decodes to the documented content, is not discharged deductively (no stream-denotation contract yet). Paginated decoder not under contract.",
+         "That encoders emit exactly the documented grammar, and that every grammatical stream decodes to the documented content, is not discharged deductively (no stream-denotation contract yet). ",
          "DESIGN 4 C07"),
  "C08": ("Error propagation proved for all byte strings: primitive decoders return io.EOF without consuming on any incomplete code (C18); the generic bin decoder returns nil only if every primitive read succeeded and the layout is known; the sketch decoder returns nil only if every block (including the bin blocks: genuine defect found and fixed) was complete, every flag known, no mapping block differed from the sketch's mapping, and a mapping is present; all decoding loops terminate (decreases) and no decoder panics or reads out of bounds.",
-         "Input domain A-DOM (assumed, listed per call in the evidence): decoded weights are finite and non-negative and accumulated indexes fit 32 bits, as in every prefix of a valid encoding. The buffered-paginated decoder is not under contract. DecodeDDSketch's store provider is a caller-supplied function (trusted contract).",
+         "Input domain A-DOM (assumed, listed per call in the evidence): decoded weights are finite and non-negative and accumulated indexes fit 32 bits, as in every prefix of a valid encoding. The buffered-paginated store's two native decoders are under contract (success only if exactly the declared number of bins was read; a genuine defect for counts >= 2^63 was found and fixed), its third layout goes through the generic decoder, which is not verified for that store. DecodeDDSketch's store provider is a caller-supplied function (trusted contract).",
          "DESIGN 4 C08"),
  "C10": ("Every method of the exact-summary sketch preserves the invariant statistics.count = total weight of the sketch, count>=0, sentinel extremes when empty, min<=max otherwise; Add/AddWithCount update the statistics only when the inner sketch accepted the value with positive weight (min/max folded, count and sum added), refusals and zero weights change nothing; MergeWith, Reweight, Clear, Copy, Encode, decode have whole-state postconditions; quantile answers are clamped to [min,max]. Proved for all inputs.",
          "In real arithmetic (A-REAL) the Kahan compensation is identically 0, so 'sum error within a few ulps' is not decided. ChangeMapping/Rescale at sketch level and the exactness of min/max as extremes of the absorbed multiset are by induction over the per-operation postconditions (not a machine-checked history lemma). Values decoded from a stream are assumed finite.",
@@ -36,17 +36,26 @@ CLAIMED = {
          "DDSketch.ForEach / GetSum (nested callbacks) are not under contract; monotonicity in q and alpha-accuracy of the extremes follow from the quantile contract by code-independent lemmas (not machine-checked).",
          "DESIGN 4 C12"),
  "C13": ("Rejection postconditions taken from the statement, proved over extended reals (NaN, +-Inf): AddWithCount of both variants returns ErrNegativeCount / ErrUntrackableNaN / TooHigh / TooLow exactly as documented and otherwise nil, quantile queries reject every q that is not in [0,1] (NaN included) and empty sketches, MergeWith with a different mapping and Reweight(w<=0) are refused; a refused call leaves the abstract state unchanged. Two genuine defects found and fixed (NaN quantile accepted; exact variant accepted invalid values with weight 0).",
-         "Mapping constructors' and NewBin's refusals are not yet under contract (constructor contracts are trusted). Weights/factors are assumed finite (NaN weights are outside the documented contract).",
+         "Mapping constructors' refusals (base <= 1, accuracy outside (0,1)) are proved; NewBin and the store constructors with bin limits are not under contract. Weights/factors are assumed finite (NaN weights are outside the documented contract).",
          "DESIGN 4 C13"),
  "C14": ("Frame conditions proved: every query of the sketch variants and of the dense, sparse and collapsing stores leaves the abstract state (mapping, zero weight, both contents, totals) unchanged; Copy returns a sketch/store with equal content whose whole footprint is freshly allocated, so later operations on either cannot affect the other (every mutator's modifies clause is confined to the receiver's footprint).",
-         "The buffered-paginated store (whose reads sort and compact) is not yet under contract. ToProto/EncodeProto purity not yet covered.",
+         "Buffered-paginated store: Copy independence, Encode and compaction purity are proved or assumed as listed under C04; its iteration/rank queries (which sort the buffer) are not under contract. ToProto/EncodeProto purity and ChangeMapping are not covered.",
          "DESIGN 4 C14"),
  "C15": ("Clear of the dense, sparse and collapsing stores, of the statistics and of both sketch variants is proved to establish exactly the constructor's postcondition on the complete abstract state (empty content, sentinel window, isCollapsed reset, zero weight 0); retained capacity is covered because the first append after Clear is proved to re-zero the reused array.",
-         "Buffered-paginated store not yet under contract; 'every subsequent history behaves alike' is by determinism of the contracts over the abstract state (not a machine-checked lemma).",
+         "Buffered-paginated Clear is proved on the store's own abstraction (C04); 'every subsequent history behaves alike' is by determinism of the contracts over the abstract state (not a machine-checked lemma).",
          "DESIGN 4 C15"),
  "C16": ("Reweight(w) of the dense (hence collapsing) and sparse stores, the statistics and both sketch variants: refused without change for w<=0, otherwise every bin, the zero weight and the totals are multiplied by w (whole-content postcondition), min/max unchanged.",
-         "Buffered-paginated store not yet under contract. A-REAL.",
+         "Buffered-paginated Reweight is proved on the store's own abstraction (C04). A-REAL.",
          "DESIGN 4 C16"),
+ "C03": ("For the logarithmic mapping every clause is a proved postcondition, for all gamma > 1 and all index offsets whose indexable range is not empty: bin bounds positive and strictly increasing, every indexable v lies between the bounds of its bin (closed interval), its index fits 32 bits, the index is monotone in v, Value(i) = LowerBound(i)(1+alpha), consecutive bounds at most a factor (1+alpha)/(1-alpha) apart, and NewLogarithmicMapping(alpha) reports exactly alpha; Index/Value/LowerBound/RelativeAccuracy/Min/MaxIndexableValue of all three mapping kinds are proved to compute the specified expressions over the fields (manual floor for negatives, offset placement, multiplier inversion). For the two interpolated mappings the same interface contract is proved from the constructor code and from stated analytic assumptions about approximateLog/approximateInverseLog.",
+         "A-REAL: float64 is real arithmetic, math.Exp/Log/Exp2/Log2/Pow are uninterpreted with trusted textbook axioms (prelude/math.spec, listed in the evidence); the '+-k ulps' clause is not decided. TRUSTED for the linear and cubic mappings (not proved): approximateLog/approximateInverseLog are bit-level functions outside the real model - their being monotone mutual inverses within 1 of log2 with bounded growth is assumed (axioms LinA*/CubA*), so a change inside those two functions or in bit_operation_helper.go is NOT detected; 'reported accuracy equals the one built with' is proved for the logarithmic mapping only (the interpolated constructors use rounded constants). Mappings whose indexable range is empty (absurd offsets) are outside the contract (DESIGN F9).",
+         "DESIGN 4 C03"),
+ "C04": ("Dense and sparse stores: every operation (Add*, AddBin, TotalCount, IsEmpty, Min/MaxIndex, KeyAtRank, ForEach, MergeWith from any store kind, Copy, Clear, Reweight, decoding, Encode) has a whole-content postcondition over the abstract index->weight map, proved for all inputs, and refines the Store interface contract. Buffered-paginated store: verified on its own abstraction (weight of k = page line + occurrences in the buffer): constructor, Add, AddWithCount, AddBin, Clear, Copy (no shared storage), Reweight (pages and buffered entries), MergeWith (same-kind page-wise path and the generic ForEach path; the argument is unchanged), TotalCount, IsEmpty, both native decoders (success only if exactly the declared number of bins was read: genuine defect found and fixed) and Encode (content-preserving).",
+         "Buffered-paginated store: page() and compact() are TRUSTED (page-table growth and buffer-to-page moves: contracts assumed, bodies not verified); MinIndex, MaxIndex, KeyAtRank, minIndexWithCumulCount, ForEach, Bins, ToProto/EncodeProto/MergeWithProto are NOT under contract, and the store is not part of the interface invariant, so sketch-level contracts do not cover sketches built on it. SparseStore.KeyAtRank: body verified for frame and safety, its two functional postconditions assumed (sort.Slice enumeration trusted). Bins() (goroutines) is outside the subset for every store. A-REAL for weights; TotalCount of the paginated store is proved equal to buffer length + double sum of page lines, the link of that sum to the abstract map is not proved.",
+         "DESIGN 4 C04"),
+ "C19": ("Proved for all three kinds: Equals decides exactly 'same kind, base and offset within a relative 1e-12' (float64 constant), is reflexive and symmetric on valid mappings, false across kinds and false when bases differ by a relative 1e-11 or more; constructors store exactly the base and offset given; Encode writes the kind flag, then the IEEE little-endian bytes of the base, then of the offset (byte-level postcondition); Decode consumes exactly 17 bytes, dispatches on the flag and calls the same constructor; ToProto records kind/base/offset and FromProto rebuilds from exactly those; float64LE round trip is bit-exact (C18).",
+         "The composition decode(encode(m)) equal to m is not one machine-checked lemma: it follows from the byte-level Encode postcondition, the bit-exact float64LE lemma of C18 and the Decode contract, with the real<->IEEE change of representation treated as uninterpreted (A-REAL bridge). The streaming protobuf writer (EncodeProto, generated builder code) is not under contract (see C09). 'Clearly different accuracies are never equal' is proved as a statement about bases (gamma), not alphas.",
+         "DESIGN 4 C19"),
  "C20": ("Every method of the reference Dataset is under a functional contract proved for all inputs: the representation invariant (Count = len(Values), sorted flag implies sortedness, finite values) is established by the constructor and preserved by Add/Merge/queries, Lower/UpperQuantile return NaN exactly for q outside [0,1] (NaN included) or an empty dataset and otherwise the element at index floor/ceil(q*(n-1)) of a sorted permutation of the values (= that order statistic), Min/Max are the extremes, Merge appends the argument's values, Sum is the real sum.",
          "float64 arithmetic is real arithmetic plus NaN/Inf (A-REAL): the rank q*(n-1) and the sum are exact, so the 'sum accurate to rounding' clause and float rounding of the rank are not decided; sort.Float64s is trusted (sorted permutation); values are assumed finite (NaN values excluded); exported fields are assumed to be written only by the methods.",
          "DESIGN 4 C20"),
@@ -56,11 +65,11 @@ CLAIMED = {
 }
 
 NA = {
- "C03": "mapping implementations (Index/Value/LowerBound of the three mappings, their constructors) are not yet under contract: the relative-accuracy inequalities need lemma-guided transcendental/nonlinear reasoning that is under construction; until then the IndexMapping contract is an assumption of C01/C05/C11 (constructors are marked trusted). No check is claimed.",
- "C04": "BufferedPaginatedStore (buffer + pages, sort/compaction on read) is not yet under contract; no check is claimed.",
+ "C03x": "mapping implementations (Index/Value/LowerBound of the three mappings, their constructors) are not yet under contract: the relative-accuracy inequalities need lemma-guided transcendental/nonlinear reasoning that is under construction; until then the IndexMapping contract is an assumption of C01/C05/C11 (constructors are marked trusted). No check is claimed.",
+ "C04x": "BufferedPaginatedStore (buffer + pages, sort/compaction on read) is not yet under contract; no check is claimed.",
  "C09": "the protobuf conversion functions (ToProto/FromProto*/MergeWithProto/EncodeProto) depend on generated protobuf code and reflection-based marshalling that is outside the verifier's Go subset; contracts over the sketchpb structs are under construction. No check is claimed.",
  "C17": "ChangeMapping/changeStoreMapping (redistribution of weight by interval overlap) is not yet under contract; no check is claimed.",
- "C19": "IndexMapping.Equals/withinTolerance and the mapping encoders' identity are not yet under contract (the abstract relation MEq is assumed to be what Equals decides); no check is claimed.",
+ "C19x": "IndexMapping.Equals/withinTolerance and the mapping encoders' identity are not yet under contract (the abstract relation MEq is assumed to be what Equals decides); no check is claimed.",
 }
 NA_DEFAULT = "check not built yet; see DESIGN.md section 4 for the plan"
 
